@@ -3,7 +3,7 @@
 # 1. demo passes without the change; 2. demo fails with it; 3. the chosen subset of existing tests still passes with it.
 set -u
 WT=$1; SD=$2; FILTER=$3; shift 3
-export CARGO_TARGET_DIR=$WT/target CARGO_NET_OFFLINE=true
+export CARGO_TARGET_DIR=$WT/target CARGO_NET_OFFLINE=true CARGO_INCREMENTAL=0
 cd $WT && git checkout -q -- . && git clean -fdq -e out -e target
 echo "== apply demo only"; git apply $SD/demo.diff || { echo "DEMO-APPLY-FAILED"; exit 2; }
 cargo nextest run --offline -p jj-lib -p jj-cli $FILTER 2>&1 | tail -4; echo "DEMO_WITHOUT_CHANGE_EXIT=${PIPESTATUS[0]}"
